@@ -429,9 +429,10 @@ func (cr *collRun) obs() sx {
 	ss, err := h.coll.Snapshot()
 	if err != nil {
 		out = append(out, L("reads", errSx(err)))
+		ss = nil
 	} else {
 		out = append(out, L("reads", readsSx(ss, cr.g.universe, 0)))
-		ss.Close()
+		defer ss.Close()
 	}
 	cg := []sx{"cget"}
 	for _, k := range cr.g.universe {
@@ -441,6 +442,15 @@ func (cr *collRun) obs() sx {
 		} else {
 			cg = append(cg, L(k, v))
 			cr.retain("Collection.Get", v)
+		}
+		// SkipLowerLevel: Collection.Get and a fresh Snapshot.Get must agree on what the in-memory
+		// sections (top, mid, base, clean) hold
+		if ss != nil && err == nil {
+			gs, e1 := h.coll.Get(k, moss.ReadOptions{SkipLowerLevel: true})
+			sv, e2 := ss.Get(k, moss.ReadOptions{SkipLowerLevel: true})
+			if (e1 == nil) != (e2 == nil) || !bytes.Equal(gs, sv) || (gs == nil) != (sv == nil) {
+				cr.violation("spec:skiplowerlevel-get-differs", fmt.Sprintf("key %q with SkipLowerLevel: Collection.Get %q, fresh Snapshot.Get %q", k, gs, sv))
+			}
 		}
 		v2, err2 := h.coll.Get(k, moss.ReadOptions{NoCopyValue: true})
 		if (err == nil) != (err2 == nil) || !bytes.Equal(v, v2) || (v == nil) != (v2 == nil) {
